@@ -147,8 +147,12 @@ func (h *harness) buildCase(name string) corr.Case {
 					for _, j := range cs {
 						if h.writes[j].wb < hs && h.writes[j].we > hs {
 							// the write that overlaps the handler's return: pushed before or after ring.Close()
-							kc = float64(h.writes[j].wb) + 0.5
-							masked[j][r] = true
+							if h.writes[j].fan[r] == '-' {
+								kc = float64(h.writes[j].wb) - 0.5 // already inactive when this write fanned out
+							} else {
+								kc = float64(h.writes[j].wb) + 0.5
+								masked[j][r] = true
+							}
 						}
 					}
 				}
